@@ -36,8 +36,11 @@ class FnSpec(object):
     def __init__(self, qual, types=None, returns=None, requires=(), ensures=(), raises=None,
                  modifies=(), loops=None, inline=False, decreases=None, ghost_exit=None, at=None,
                  abstract=False, pure=False, yields=None, defs=None, lemmas=(), alloc_as=None,
-                 mutates=(), use=(), trusted=False, note=None, exc_post=None, dead_ok=(), native_only=False):
+                 mutates=(), use=(), trusted=False, note=None, exc_post=None, dead_ok=(), native_only=False,
+                 strict_return=False):
+        self.strict_return = strict_return     # the Python type of the result must be exactly `returns`
         self.native_only = native_only         # contract evaluated at run time only (bounded stand-in)
+        self.table = None                      # (dict name, key): the function is a lambda stored in a dict literal
         self.dead_ok = list(dead_ok)           # statements allowed to be unreachable under the precondition
         self.qual = qual
         self.module, self.path = qual.split(":")
@@ -104,6 +107,14 @@ class Spec(object):
     def fn(self, qual, **kw):
         f = FnSpec(qual, **kw)
         self.fns[qual] = f
+        return f
+
+    def table_fn(self, module, table, key, **kw):
+        """Contract for a lambda stored under `key` in the module-level dict literal `table`."""
+        label = "%s[%s]" % (table, ",".join(str(x) for x in key))
+        f = FnSpec("%s:%s" % (module, label), **kw)
+        f.table = (table, key)
+        self.fns[f.qual] = f
         return f
 
     def lemma(self, func, module="problog.util"):
